@@ -455,13 +455,14 @@ def _discharge_all(E, rep):
     for o in E.obls:
         if o.status == "refuted" and getattr(o, "modulo_wf", False) and not (getattr(o, "replay", None) or {}).get("reproduced"):
             n = evals.get(o.id, 0)
-            if n >= 50:
+            if n >= 50 and len(getattr(E, "search_variety", {}).get(o.id, ())) >= 3:
                 o.status = "undecided"
                 o.reason = (f"not reproduced: the solver's candidate counter-model could not be replayed and the real function satisfied the clause "
                             f"on all {n} generated inputs; left undecided (solver: {o.reason})")
             else:
                 o.reason = (o.reason or "") + " [no replay on the real function: effects / opaque inputs]"
-        elif o.status == "undecided" and evals.get(o.id, 0) >= 50 and str(o.reason).startswith("unknown"):
+        elif o.status == "undecided" and evals.get(o.id, 0) >= 50 and len(getattr(E, "search_variety", {}).get(o.id, ())) >= 3 \
+                and str(o.reason).startswith("unknown"):
             o.reason = f"not refuted by {evals[o.id]} native executions of the real function; solver: {o.reason}"
     # Differential check against the BASELINE version of this function (contracts/baseline/_sources.json): when the function
     # has changed, can be executed natively, and some obligation is no longer discharged without a reproduced failing input,
